@@ -525,6 +525,8 @@ where
         }
 
         let mut escape: Option<Escape> = None;
+        // Whether any byte of the current argument (quotes included) has been seen.
+        let mut in_argument = false;
         let mut i = 0;
         loop {
             if i == pending.len() {
@@ -545,7 +547,7 @@ where
                             format!("Unterminated quote: {q}"),
                         ));
                     }
-                    if i == 0 {
+                    if !in_argument {
                         return Ok(None);
                     }
                     pending.clear();
@@ -556,6 +558,9 @@ where
                 i = 0;
             }
 
+            if escape.is_some() || !pending[i].is_ascii_whitespace() {
+                in_argument = true;
+            }
             match (&escape, pending[i]) {
                 (Some(Escape::Quote(quote)), c) if c == *quote => escape = None,
                 (Some(Escape::Quote(_)), c) => result.push(c),
